@@ -39,10 +39,15 @@
 (* FetchHeaderByHeight which takes it AGAIN: with a writer waiting in      *)
 (* between both park for ever (the model has these deadlock states).       *)
 (*                                                                         *)
-(* Locks = TRUE is the code at HEAD; its behaviours are PREDICTIONS for the*)
-(* replay (drift is measured).  Locks = FALSE (nobody locks) has every     *)
-(* interleaving at gate granularity; its behaviours are replayed as        *)
-(* SCHEDULES only (which goroutine is released next).                      *)
+(* mode = "code" is the code at HEAD; its behaviours are PREDICTIONS for   *)
+(* the replay (drift is measured).  The other modes are other placements   *)
+(* of the locks; their behaviours are replayed as SCHEDULES only (which    *)
+(* goroutine is released next, which read is called), so that a changed    *)
+(* lock placement in the code meets the interleavings that expose it:      *)
+(*   "nolock"  nobody locks: every interleaving at gate granularity        *)
+(*   "wsplit"  the writer gives its lock up between any two of its         *)
+(*             primitives (a reader that waited slips in, the writer waits *)
+(*             for it) - the shape of a writer critical section cut in two *)
 (*                                                                         *)
 (* The two flat files are sequences of header ids (filter headers are named*)
 (* by the id of their block), the index is id -> height plus one tip key   *)
@@ -50,31 +55,35 @@
 (***************************************************************************)
 EXTENDS Integers, Sequences, FiniteSets, TLC, Json, HSRaceProps
 
-CONSTANTS Locks,      \* the store mutexes are taken
+CONSTANTS Modes,      \* subset of {"code", "nolock", "wsplit"}
           N,          \* header ids 0..N-1
+          FixAncLock,        \* code version: FetchHeaderAncestors (both stores) holds the read lock
+          FixLocatorRelock,  \* code version: blockLocatorFromHash reads without locking again
           Scen        \* sequence of scenarios [lb, lf, mr, prog, reads]
                       \*   mr    : read calls per history
                       \*   prog  : sequence of [call, n, batch]
                       \*   reads : set of <<call, arg, n>>
 
-VARIABLES sc,         \* index of the scenario
+VARIABLES mode,       \* lock placement (see above), fixed in the initial state
+          sc,         \* index of the scenario
           st,         \* stores: [fB, fF (files), idx (Seq over ids: height | NF), tB, tF (tip keys)]
           lk,         \* [B|F -> [r readers holding, w writer holding, p writer waiting]]
           R, W,       \* goroutines: [call, arg, n, batch, l (label), ph, loc]
           nr, wi,     \* calls started so far
           abs, act, viol
 
-vars == <<sc, st, lk, R, W, nr, wi, abs, act, viol>>
+vars == <<mode, sc, st, lk, R, W, nr, wi, abs, act, viol>>
 
 Sc == Scen[sc]
+Locks == mode # "nolock"
 
 ----------------------------------------------------------------------------
-\* The code.  k: rlock | runlock | lock | unlock | prim | ret;  s: store;
+\* The code.  k: rlock | runlock | lock | unlock | nop | prim | ret;  s: store;
 \* g: gate name of a primitive;  f: what the primitive does (Exec).
 I(k, s, g, f) == [k |-> k, s |-> s, g |-> g, f |-> f]
 RET == I("ret", "", "", "")
 
-Code(call, l) ==
+Code0(call, l) ==
   CASE call = "FetchHeader" ->            \* store.go:353-372
          CASE l = 1 -> I("rlock", "B", "", "")
            [] l = 2 -> I("prim", "B", "v", "hof")        \* heightFromHash
@@ -95,17 +104,24 @@ Code(call, l) ==
     [] call = "HeightFromHash" ->         \* store.go:425-427, no store lock
          CASE l = 1 -> I("prim", "B", "v", "hof")
            [] OTHER -> RET
-    [] call = "Ancestors" ->              \* store.go:402-419, no store lock
+    [] call = "Ancestors" /\ ~FixAncLock -> \* store.go:402-419, no store lock
          CASE l = 1 -> I("prim", "B", "v", "hof")
            [] l = 2 -> I("prim", "B", "rB", "range")     \* readHeaderRange
+           [] OTHER -> RET
+    [] call = "Ancestors" ->
+         CASE l = 1 -> I("rlock", "B", "", "")
+           [] l = 2 -> I("prim", "B", "v", "hof")
+           [] l = 3 -> I("prim", "B", "rB", "range")
+           [] l = 4 -> I("runlock", "B", "", "")
            [] OTHER -> RET
     [] call = "Locator" ->                \* store.go:645-658 + 600-639
          CASE l = 1 -> I("rlock", "B", "", "")
            [] l = 2 -> I("prim", "B", "v", "tip")        \* chainTip
            [] l = 3 -> I("prim", "B", "v", "hoft")       \* heightFromHash(tip)
-           [] l = 4 -> I("rlock", "B", "", "")           \* FetchHeaderByHeight: RLock again
+           [] l = 4 -> IF FixLocatorRelock THEN I("nop", "", "", "")
+                       ELSE I("rlock", "B", "", "")      \* FetchHeaderByHeight: RLock again
            [] l = 5 -> I("prim", "B", "rB", "loc1")
-           [] l = 6 -> I("runlock", "B", "", "")
+           [] l = 6 -> IF FixLocatorRelock THEN I("nop", "", "", "") ELSE I("runlock", "B", "", "")
            [] l = 7 -> I("runlock", "B", "", "")
            [] OTHER -> RET
     [] call = "FFetchHeader" ->           \* store.go:968-981
@@ -125,9 +141,15 @@ Code(call, l) ==
            [] l = 3 -> I("prim", "F", "rF", "one")
            [] l = 4 -> I("runlock", "F", "", "")
            [] OTHER -> RET
-    [] call = "FAncestors" ->             \* store.go:1004-1021, no store lock
+    [] call = "FAncestors" /\ ~FixAncLock -> \* store.go:1004-1021, no store lock
          CASE l = 1 -> I("prim", "F", "v", "hof")
            [] l = 2 -> I("prim", "F", "rF", "range")
+           [] OTHER -> RET
+    [] call = "FAncestors" ->
+         CASE l = 1 -> I("rlock", "F", "", "")
+           [] l = 2 -> I("prim", "F", "v", "hof")
+           [] l = 3 -> I("prim", "F", "rF", "range")
+           [] l = 4 -> I("runlock", "F", "", "")
            [] OTHER -> RET
     [] call = "AppendB" ->                \* store.go:529-592
          CASE l = 1 -> I("lock", "B", "", "")
@@ -159,13 +181,31 @@ Code(call, l) ==
            [] OTHER -> RET
     [] OTHER -> RET
 
+\* mode "wsplit": lock, p1, ..., pk, unlock becomes lock, p1, unlock, lock, p2, ..., pk, unlock
+WOps == {"AppendB", "RollbackB", "AppendF", "RollbackF"}
+NPrims(call) == IF call \in {"AppendB", "AppendF"} THEN 2 ELSE 4
+Split(call) == mode = "wsplit" /\ call \in WOps
+
+Code(call, l) ==
+  IF ~Split(call) \/ l = 1 THEN Code0(call, l)
+  ELSE LET i == ((l - 2) \div 3) + 1
+           r == (l - 2) % 3
+           s == Code0(call, 1).s
+       IN  IF i > NPrims(call) THEN RET
+           ELSE CASE r = 0 -> Code0(call, i + 1)
+                  [] r = 1 -> I("unlock", s, "", "")
+                  [] OTHER -> IF i < NPrims(call) THEN I("lock", s, "", "") ELSE RET
+
 \* label of the instruction a failed primitive jumps to (the deferred unlock / the return)
-Exit(call) ==
+Exit0(call) ==
   CASE call \in {"FetchHeader", "ChainTip", "FFetchHeader", "FChainTip", "AppendB", "AppendF"} -> 4
-    [] call \in {"ByHeight", "FByHeight", "Ancestors", "FAncestors"} -> 3
+    [] call \in {"Ancestors", "FAncestors"} -> IF FixAncLock THEN 4 ELSE 3
+    [] call \in {"ByHeight", "FByHeight"} -> 3
     [] call = "HeightFromHash" -> 2
     [] call \in {"RollbackB", "RollbackF"} -> 6
     [] OTHER -> 7           \* Locator
+
+Exit(call) == IF Split(call) THEN 3 * NPrims(call) ELSE Exit0(call)
 
 \* label after instruction l has been executed with locals loc
 Nx(call, l, loc) ==
@@ -248,15 +288,17 @@ Val(q) ==
 Idle == [call |-> "", arg |-> 0, n |-> 0, batch |-> <<>>, l |-> 0, ph |-> "idle",
          loc |-> [h |-> NF, t |-> NF, acc |-> <<>>, err |-> 0]]
 
-\* q is about to execute the instruction at q.l; returns [q, lk]
-RECURSIVE Adv(_, _)
-Adv(q, l0) ==
+\* q is about to execute the instruction at q.l and runs on to its next gate.
+\* Adv1: a goroutine that has just been let in by the other one's unlock (it
+\* reaches a primitive before it unlocks anything itself); returns [q, lk].
+RECURSIVE Adv1(_, _)
+Adv1(q, l0) ==
   LET ins == Code(q.call, q.l)
-      on(l1) == Adv([q EXCEPT !.l = Nx(q.call, q.l, q.loc)], l1)
+      on(l1) == Adv1([q EXCEPT !.l = Nx(q.call, q.l, q.loc)], l1)
   IN
   CASE ins.k = "prim" -> [q |-> [q EXCEPT !.ph = "pre"], lk |-> l0]
     [] ins.k = "ret"  -> [q |-> [q EXCEPT !.ph = "ret"], lk |-> l0]
-    [] ~Locks         -> on(l0)
+    [] ~Locks \/ ins.k = "nop" -> on(l0)
     [] ins.k = "rlock" ->
          IF l0[ins.s].w = 1 \/ l0[ins.s].p = 1
          THEN [q |-> [q EXCEPT !.ph = "blk"], lk |-> l0]
@@ -268,8 +310,30 @@ Adv(q, l0) ==
     [] ins.k = "runlock" -> on([l0 EXCEPT ![ins.s].r = @ - 1])
     [] OTHER (* unlock *) -> on([l0 EXCEPT ![ins.s].w = 0])
 
-\* a goroutine parked on a mutex tries again after the other one has moved
-Wake(q, l0) == IF q.ph = "blk" THEN Adv(q, l0) ELSE [q |-> q, lk |-> l0]
+\* a goroutine parked on a mutex tries again when the other one unlocks
+Wake(o, l0) == IF o.ph = "blk" THEN Adv1(o, l0) ELSE [q |-> o, lk |-> l0]
+
+\* the released goroutine q (the other one is o); an unlock lets a waiting o in
+\* at once, as sync.RWMutex does; returns [q, o, lk]
+RECURSIVE Adv(_, _, _)
+Adv(q, o, l0) ==
+  LET ins == Code(q.call, q.l)
+      nq  == [q EXCEPT !.l = Nx(q.call, q.l, q.loc)]
+      hand(l1) == LET w == Wake(o, l1) IN Adv(nq, w.q, w.lk)
+  IN
+  CASE ins.k = "prim" -> [q |-> [q EXCEPT !.ph = "pre"], o |-> o, lk |-> l0]
+    [] ins.k = "ret"  -> [q |-> [q EXCEPT !.ph = "ret"], o |-> o, lk |-> l0]
+    [] ~Locks \/ ins.k = "nop" -> Adv(nq, o, l0)
+    [] ins.k = "rlock" ->
+         IF l0[ins.s].w = 1 \/ l0[ins.s].p = 1
+         THEN [q |-> [q EXCEPT !.ph = "blk"], o |-> o, lk |-> l0]
+         ELSE Adv(nq, o, [l0 EXCEPT ![ins.s].r = @ + 1])
+    [] ins.k = "lock" ->
+         IF l0[ins.s].r > 0
+         THEN [q |-> [q EXCEPT !.ph = "blk"], o |-> o, lk |-> [l0 EXCEPT ![ins.s].p = 1]]
+         ELSE Adv(nq, o, [l0 EXCEPT ![ins.s].w = 1, ![ins.s].p = 0])
+    [] ins.k = "runlock" -> hand([l0 EXCEPT ![ins.s].r = @ - 1])
+    [] OTHER (* unlock *) -> hand([l0 EXCEPT ![ins.s].w = 0])
 
 PcName(q) ==
   CASE q.ph = "pre"  -> "pre." \o Code(q.call, q.l).g
@@ -296,19 +360,18 @@ Fin(a) ==
 \* goroutine p (record q, the other one is o) is released
 Move(p, q, o, ph, s1) ==
   \* q has been prepared (call chosen / primitive done / label advanced) and runs on
-  LET a1 == Adv(q, lk)
-      a2 == Wake(o, a1.lk)
+  LET a1 == Adv(q, o, lk)
       me == Settle(a1.q)
   IN  /\ st' = s1
-      /\ lk' = a2.lk
-      /\ IF p = "R" THEN R' = me /\ W' = a2.q ELSE W' = me /\ R' = a2.q
+      /\ lk' = a1.lk
+      /\ IF p = "R" THEN R' = me /\ W' = a1.o ELSE W' = me /\ R' = a1.o
       /\ Fin(Act(p, ph, a1.q, PcName(a1.q)))
 
 Step(p) ==
   LET q == IF p = "R" THEN R ELSE W
       o == IF p = "R" THEN W ELSE R
   IN
-  /\ sc' = sc
+  /\ sc' = sc /\ mode' = mode
   /\ CASE q.ph = "idle" /\ p = "R" ->
             /\ nr < Sc.mr /\ nr' = nr + 1 /\ wi' = wi
             /\ \E c \in Sc.reads :
@@ -333,6 +396,7 @@ Step(p) ==
        [] OTHER -> FALSE          \* parked on a mutex
 
 Init ==
+  /\ mode \in Modes
   /\ sc \in 1..Len(Scen)
   /\ st = [fB  |-> [k \in 1..Sc.lb |-> k - 1],
            fF  |-> [k \in 1..Sc.lf |-> k - 1],
@@ -355,13 +419,14 @@ TypeOK ==
                            /\ (lk[s].w = 1 => lk[s].r = 0)
   /\ R.ph \in {"idle", "pre", "post", "blk"} /\ W.ph \in {"idle", "pre", "post", "blk"}
   /\ Locks \/ (R.ph # "blk" /\ W.ph # "blk")
+  /\ mode \in {"code", "nolock", "wsplit"}
 
 \* The recursive read lock: both goroutines parked for ever.
 Deadlocked == R.ph = "blk" /\ W.ph = "blk"
 
 NoViolation == viol = {}
 
-State == [sc |-> sc, st |-> st, lk |-> lk, R |-> R, W |-> W, nr |-> nr, wi |-> wi,
+State == [mode |-> mode, sc |-> sc, st |-> st, lk |-> lk, R |-> R, W |-> W, nr |-> nr, wi |-> wi,
           abs |-> [lists |-> abs.lists, nd |-> abs.nd, fl |-> abs.fl, rs |-> abs.rs]]
-View == <<sc, st, lk, R, W, nr, wi, abs>>
+View == <<mode, sc, st, lk, R, W, nr, wi, abs>>
 =============================================================================
